@@ -17,7 +17,8 @@ CONSTANTS NH,        \* handles are 1..NH
           V,         \* element values (small naturals >= 1); 0 is the default-constructed value
           Sizes,     \* arguments tried for resize/reserve
           MaxLen,    \* appends/inserts are generated only below this length
-          MaxOps     \* bound on the history length
+          MaxOps,    \* bound on the history length
+          KeepHist   \* TRUE: hist is the whole history (model checking / replay); FALSE: only the last call (trace validation)
 
 VARIABLES hb, blk, hist, hz
 vars == <<hb, blk, hist, hz>>
@@ -55,8 +56,8 @@ Init == /\ hb = [h \in H |-> IF h = 1 THEN 1 ELSE 0]
 \* garbage blocks are reset so that equal abstract states coincide
 Gc(hb2, blk2) == [b \in 1..(NH+1) |-> IF \E h \in H : hb2[h] = b THEN blk2[b] ELSE <<>>]
 
-Log(rec, tags) == /\ hist' = Append(hist, rec)
-                  /\ hz' = hz \cup tags
+Log(rec, tags) == /\ hist' = IF KeepHist THEN Append(hist, rec) ELSE <<rec>>
+                  /\ hz' = IF KeepHist THEN hz \cup tags ELSE tags
 
 \* an in-place operation through handle h giving the block the new content s2
 InPlace(h, s2, rec, tags) ==
@@ -181,12 +182,12 @@ SomeLive == Live # {}
 \* an operation changes at most the block of the handle it goes through (clone independence): every block that
 \* stays referenced and is neither the operated handle's old nor new block keeps its content
 Independence ==
-    [][hist' # hist =>
+    [][(hist' # hist /\ hist' # <<>>) =>
         LET r == hist'[Len(hist')]
             touched == {hb[r.h], hb'[r.h]} \cup (IF "g" \in DOMAIN r THEN {hb'[r.g]} ELSE {})
         IN \A b \in 1..(NH+1) : (b \notin touched /\ RC(b) > 0 /\ \E h \in H : hb'[h] = b) => blk'[b] = blk[b]]_vars
 \* a clone never aliases its source
-CloneFresh == [][(hist' # hist /\ hist'[Len(hist')].op \in {"clone", "reversed", "slice", "concat", "filter", "map"}) =>
+CloneFresh == [][(hist' # hist /\ hist' # <<>> /\ hist'[Len(hist')].op \in {"clone", "reversed", "slice", "concat", "filter", "map"}) =>
                    LET r == hist'[Len(hist')] IN \A x \in H \ {r.g} : hb'[x] # hb'[r.g]]_vars
 
 -------------------------------------------------------------------------------
